@@ -97,7 +97,10 @@ def _perturb(v):
         out.append(("as-memoryview", memoryview(b)))
         out.append(("as-bytearray", bytearray(b)) if isinstance(v, bytes) else ("as-bytes", b))
     elif isinstance(v, int):
-        out += [("+1", v + 1), ("-1", v - 1)]
+        from fractions import Fraction
+        out += [("+1", v + 1), ("-1", v - 1), ("as-Fraction", Fraction(v))]
+    elif type(v).__name__ == "Fraction":
+        out += [("as-int", int(v))]
     elif callable(v) and getattr(v, "__name__", "").startswith("openssl_"):
         out.append(("other-hash", hashlib.sha512 if "sha256" in v.__name__ else hashlib.sha256))
         out.append(("other-hash-same-block", hashlib.sha224 if "sha256" in v.__name__ else hashlib.sha384))
